@@ -567,6 +567,53 @@ theorem hook_ok {s s' : State} {src : String} {c : Nat} {to : String} {amount : 
       cases h
       exact ⟨h0, by omega, Or.inr ⟨sym, t, hc, ht, by simpa using hbl, by omega, rfl⟩⟩
 
+/-- what a `SwapToNative` log leaves untouched: everything but the two ledgers -/
+structure Frame (s s' : State) : Prop where
+  tokens    : s'.tokens = s.tokens
+  minUnits  : s'.minUnits = s.minUnits
+  owners    : s'.owners = s.owners
+  contracts : s'.contracts = s.contracts
+  burned    : s'.burned = s.burned
+  params    : s'.params = s.params
+  nonce     : s'.nonce = s.nonce
+  fault     : s'.fault = s.fault
+  env       : s'.env = s.env
+
+theorem Frame.refl (s : State) : Frame s s := ⟨rfl, rfl, rfl, rfl, rfl, rfl, rfl, rfl, rfl⟩
+
+theorem Frame.trans {a b c : State} (h1 : Frame a b) (h2 : Frame b c) : Frame a c :=
+  ⟨h2.tokens.trans h1.tokens, h2.minUnits.trans h1.minUnits, h2.owners.trans h1.owners,
+   h2.contracts.trans h1.contracts, h2.burned.trans h1.burned, h2.params.trans h1.params,
+   h2.nonce.trans h1.nonce, h2.fault.trans h1.fault, h2.env.trans h1.env⟩
+
+theorem hook_frame {s s' : State} {src : String} {c : Nat} {to : String} {amount : Int}
+    (h : stepHookSwap s src c to amount = .ok s') : Frame s s' := by
+  obtain ⟨_, _, h3⟩ := hook_ok h
+  rcases h3 with ⟨rfl, _⟩ | ⟨sym, t, _, _, _, _, rfl⟩ <;> exact ⟨rfl, rfl, rfl, rfl, rfl, rfl, rfl, rfl, rfl⟩
+
+/-- a property kept by every accepted `SwapToNative` log is kept by the whole receipt -/
+theorem logs_lift {P : State → Prop}
+    (hP : ∀ (x x' : State) (src : String) (c : Nat) (to : String) (amount : Int),
+      P x → stepHookSwap x src c to amount = .ok x' → P x')
+    {s s' : State} {logs : List SwapLog} (h0 : P s) (h : stepLogs s logs = .ok s') : P s' := by
+  induction logs generalizing s with
+  | nil => simp only [stepLogs] at h; cases h; exact h0
+  | cons l rest ih =>
+    simp only [stepLogs] at h
+    split at h; · cases h
+    rename_i s1 h1
+    refine ih ?_ h
+    unfold stepLog at h1
+    split at h1
+    · exact hP _ _ _ _ _ _ h0 h1
+    · cases h1; exact h0
+
+theorem logs_frame {s s' : State} {logs : List SwapLog} (h : stepLogs s logs = .ok s') : Frame s s' :=
+  logs_lift (P := fun x => Frame s x) (fun _ _ _ _ _ _ hx hs => hx.trans (hook_frame hs)) (Frame.refl s) h
+
+theorem evmTx_ok {s s' : State} {target : Emitter} {logs : List SwapLog}
+    (h : step s (.evmTx target logs) = .ok s') : stepLogs s logs = .ok s' := h
+
 theorem evmFault_ok {s s' : State} {mode : String} (h : stepEvmFault s mode = .ok s') :
     s' = { s with fault := mode } := by
   unfold stepEvmFault at h
